@@ -609,3 +609,42 @@ def rule_jeaiii(col, facts):
             col.check(R_, key, cx is None and lead < 100,
                       "multiplier %d (>> %d, %d digit pairs after the leading ones) on the range [%d, %d]: for n = %s the extracted digits are not the decimal digits of n (leading part %d)" % (M, S, R, lo, hi, cx, lead), f.loc(sp))
     col.floor(R_, "jeaiii multiplier sites (%s)" % facts.config, n, 18)
+
+
+def rule_lossy_marker(col, facts):
+    """WHO-lossy (marker): the 'could not decide' marker (INVALID_FP bias / compute_error*) is produced
+    only when lossy is false, and parse_complete/parse_partial never branch on lossy themselves - so with
+    lossy on, a biased exponent can never reach extended_to_float."""
+    R = "WHO-lossy"
+    n = 0
+    backends = [(PF + "binary::binary", 2)] if ("power-of-two" in facts.config or "radix" in facts.config) else []
+    if facts.config.startswith("compact") or "radix" in facts.config:
+        backends.append((PF + "bellerophon::bellerophon", 2))
+    if not facts.config.startswith("compact"):
+        backends += [(PF + "lemire::lemire", 2), (PF + "lemire::compute_float", 3)]
+    for name, la in backends:
+        f = facts.fn(name)
+        for i, b in enumerate(f.blocks):
+            if not f.live(i):
+                continue
+            sites = []
+            for st in b["s"]:
+                if st[0] == "=" and st[2][0] == "bin" and st[2][1].startswith("Add") and any(last_seg(k[1]) == "INVALID_FP" for k in expr_consts(rvalue_expr(f, st[2], 0))):
+                    sites.append(st[3])
+            t = b["t"]
+            if t["k"] == "call" and callee_name(t["f"]).endswith(("lemire::compute_error", "lemire::compute_error_scaled")):
+                sites.append(b["ts"])
+            for sp in sites:
+                n += 1
+                ok = any(strip_casts(e)[:2] == ("arg", la) and p is False for _d, e, p in path_conditions(f, i))
+                col.check(R, "%s:marker#%d" % (last_seg(name), n), ok, "the undecided marker is produced on a path where `lossy` was not tested false: lossy parsing would return a float built from a biased exponent", f.loc(sp))
+    col.floor(R, "marker producers", n, 1)
+    for name in ("parse::parse_complete", "parse::parse_partial"):
+        f = facts.fn(PF + name)
+        for i, b in enumerate(f.blocks):
+            t = b["t"]
+            if t["k"] == "switch" and f.live(i):
+                e = op_expr(f, t["d"])
+                if any(x[1].endswith("options::Options::lossy") for x in expr_calls(e)):
+                    col.bad(R, "%s:branches-on-lossy" % last_seg(name), "%s branches on options.lossy(): the slow-path decision must depend on the marker only" % last_seg(name), f.loc(b["ts"]))
+        col.ok(R, "%s:no-branch-on-lossy-scan" % last_seg(name))
